@@ -27,7 +27,7 @@ SPEC = dict(
           "(90%), 0 (5%) or inconsistent (5%); LeavePartialOnError on/off; 9 fixed corner cases first (ids 7 and 8: the former stale-tail inputs, regression); "
           "download cache scenario (1/7 of the random cases + 2 fixed): Config.CacheDownloads=3 under dirs.SetRootDir(temp), the "
           "same Store downloads the same DownloadInfo twice to two target paths, each call with its own script and partial file; "
-          "after a successful first call the second is a cache hit (no request); family `bytes on disk, then error replies, then the good body` (1/5 of the random cases + 5 fixed): an over-long or wrong body cut by a lost connection / an over-long or short partial file / a lying 206, then 1..3 of {5xx with or without body, 4xx with body, redirect, dropped connection} answering the Range retry, then the good body. Compared: error class "
+          "after a successful call the later ones are cache hits (no request); up to three calls, sometimes with a file already at a target path (kept on a hit: EEXIST; model tie only, the monitor does not judge those calls); delta scenario (1/6 of the remaining random cases + 7 fixed): one delta in DownloadInfo, delta file served first by the same script (right / wrong digest / lost connection / arbitrary reply), base snap present or not, format right or not, fake xdelta3 that fails (after writing half a file), writes chosen bytes into targetPath.partial, or exits 0 without output; family `bytes on disk, then error replies, then the good body` (1/5 of the random cases + 5 fixed): an over-long or wrong body cut by a lost connection / an over-long or short partial file / a lying 206, then 1..3 of {5xx with or without body, 4xx with body, redirect, dropped connection} answering the Range retry, then the good body. Compared: error class "
           "(nil / HashError / other), presence and full content of the target, presence of .partial. Non-trivial = at "
           "least two requests served, or a non-empty partial file and one request."),
     exhaustive=dict(quick=False, thorough=False),
@@ -36,8 +36,8 @@ SPEC = dict(
         "SHA3-384 modelled as an ideal (collision-free) digest: `digest matches` is content equality",
         "net/http client and server, httputil.ShouldRetryError classification, gopkg.in/retry.v1: modelled by their observable effect per request (EOF before response = retryable, malformed response = not retryable, unexpected EOF in body = retryable, malformed chunk = not retryable, redirect followed inside the attempt); validated only by the differential run",
     ],
-    assumptions=["PARTIAL: the HTTP stack, the retry classification and SHA3 are modelled, not verified; local file system errors (open/seek/truncate/rename/sync), context cancellation, the transfer speed monitor, rate limiting, deltas are outside the model and switched off in the driver (SNAPD_USE_DELTAS_EXPERIMENTAL=0: store_download.go useDeltas 84-157 beyond the env check, the delta branch of Download 211-222, downloadDelta 658-673, applyDeltaImpl 680-732, downloadAndApplyDelta 735-764 are not exercised), DownloadStream 604-644 and doDownloadReqImpl 648-655 are not exercised; the download cache is modelled only as `a successful call makes the next call for the same digest a hit that links the verified file` (cache.go CacheManager.cleanup 162-228 / eviction not exercised).",
-                 "cache hits are not re-verified by the code (CacheManager.Get hard-links and returns): C31_cached_target_only_if_match assumes the cached file is not modified between Put and Get and that no file pre-exists at the target path",
+    assumptions=["PARTIAL: the HTTP stack, the retry classification, SHA3 and xdelta3 are modelled, not verified (xdelta3 is an arbitrary oracle in the model and a fake shell script in the driver); local file system errors (open/seek/truncate/rename/sync), context cancellation, the transfer speed monitor, rate limiting, cache eviction (cache.go 178-228), DownloadStream (604-644) and doDownloadReqImpl (648-655) are outside the model. In the model and tied: the full download, the delta path with fallback (useDeltas is forced on through the Store fields; its probing of a real xdelta3, lines 105-157, is not exercised), the cache manager hit / put path incl. a file already at the target path.",
+                 "cache hits are not re-verified by the code (CacheManager.Get hard-links and returns): C31_cache_sequence_only_if_match assumes the cached file is not modified between Put and Get and that no file pre-exists at the target path",
                  "the model is the code since commit adc145b (file truncated when the server ignores Range); the full statement is proved with no guard and for every declared size incl. 0 (C31_target_only_if_match, C31_failure_leaves_no_target); C31_before_fix_refuted keeps the historical counterexample for the code before the repair; driver cases 7 and 8 are the regression inputs",
                  "retry strategy is count-limited in model and driver (the 90 s time limit of downloadRetryStrategy only ends the loop earlier, which is one of the modelled budgets)"],
 )
